@@ -256,6 +256,9 @@ type vpKV struct {
 	latMin    time.Duration // lower bound of the request latency (latMin == lat: concrete latency)
 	faultForce bool // inject faults[0] without asking the explorer
 	watchFailLeft int
+	latOps    string // "" = the request latency applies to every operation, otherwise only to this one
+	latSeq    []time.Duration // concrete request latency of the n-th such operation (then none)
+	latN      int
 }
 
 func (k *vpKV) begin(op string) int {
@@ -297,7 +300,18 @@ func (k *vpKV) begin(op string) int {
 		}
 		vpBlockForever()
 	}
-	vpDelay(op+".req", k.latMin, k.lat)
+	if k.latOps == "" || k.latOps == op {
+		if k.latSeq != nil {
+			d := time.Duration(0)
+			if k.latN < len(k.latSeq) {
+				d = k.latSeq[k.latN]
+			}
+			k.latN++
+			vpDelay(op+".req", d, d)
+		} else {
+			vpDelay(op+".req", k.latMin, k.lat)
+		}
+	}
 	if k.st.cut && f == vpFaultNone {
 		// the store became unreachable before the request arrived: error after a while, or no answer at all
 		if vpChoose("cut."+op, 2) == 1 {
